@@ -31,7 +31,7 @@ CONSTANTS
   UidSets <- StdUidSets
   DateModes = {"ww", "wu", "uw", "uu"}
   Devs = {"BodyKeyMatchesHeaders", "UidSearchSeqSetAsUid", "DoubleNotRejected"}
-  NumMb = 24
+  NumMb = 20
   NumLeaf = 40
   NumLeafSets = 6
   LeafSetSize = 4
